@@ -60,8 +60,8 @@ ir_merge = Contract(
         Clause("M3", "result['params']['c'] is other['params']['c'] and result['params']['d'] is other['params']['d'] and result['params']['a'] is target['params']['a']",
                when=_SHARED, note="parameters only one side knows are carried as they are"),
         Clause("M4", "result['params'] is other['params']", when=["target-empty"], note="nothing documented: the signature's parameters are taken over"),
-        Clause("M5", "list(result['params'].keys()) == ['a', 'b'] and result['params'] == old_target['params']", when=["other-empty"]),
-        Clause("M-frame-other", "other['params'] == old_other['params']", note="the other IR's parameters are not modified"),
+        Clause("M5", "list(result['params'].keys()) == ['a', 'b'] and unchanged(result['params'], old_target['params'])", when=["other-empty"]),
+        Clause("M-frame-other", "unchanged(other['params'], old_other['params'])", note="the other IR's parameters are not modified"),
     ],
     canaries=["result['params']['b']['doc'] == %s['doc']" % _TB],
 )
@@ -82,8 +82,8 @@ join_non_none = Contract(
         Clause("J1", "result is primacy and result['typ'] == old_primacy['typ'] and result['doc'] == other['doc'] and result['default'] == other['default']",
                when=["both"], note="values the primary dict has win; None / missing ones are taken from the other"),
         Clause("J2", "result is other", when=["primacy-empty"]),
-        Clause("J3", "result is primacy and result == old_primacy", when=["other-empty"]),
-        Clause("J-frame", "other == old_other", note="the other dict is not modified"),
+        Clause("J3", "result is primacy and unchanged(result, old_primacy)", when=["other-empty"]),
+        Clause("J-frame", "unchanged(other, old_other)", note="the other dict is not modified"),
     ],
     canaries=["result is other"],
 )
